@@ -3,6 +3,7 @@ package web
 // C04 — the client address is the first X-Forwarded-For element, else the TCP peer host.
 
 import (
+	"crypto/tls"
 	"net/http"
 
 	"github.com/bolkedebruin/rdpgw/cmd/rdpgw/identity"
@@ -34,7 +35,7 @@ func vpIsSpace(c byte) bool {
 //vp:property C04
 //vp:set x 4 6
 //vp:set budget 300 900
-//vp:bounds X-Forwarded-For absent or any ASCII string of <= x bytes (4 quick, 6 thorough) (commas, blanks, empty elements); peer address one of {"192.0.2.9:4242", "[2001:db8::1]:80", "nohostport", ""}; new or existing session
+//vp:bounds X-Forwarded-For absent or any ASCII string of <= x bytes (4 quick, 6 thorough) (commas, blanks, empty elements); peer address one of {"192.0.2.9:4242", "[2001:db8::1]:80", "nohostport", ""}; new or existing session; the request arrives over plain HTTP or over the gateway's own TLS listener
 //vp:assume header bytes are ASCII (< 0x80): strings.TrimSpace's Unicode path is outside the bound
 //vp:reach xff peer
 func VP_C04_enrich() {
@@ -56,6 +57,10 @@ func VP_C04_enrich() {
 	next := http.HandlerFunc(func(w http.ResponseWriter, r *http.Request) { seen = identity.FromRequestCtx(r) })
 	r := vpRequest("GET", hdr, nil)
 	r.RemoteAddr = peer
+	if vpBool("request-arrived-over-the-gateways-own-tls-listener") {
+		// a proxy that re-encrypts towards the gateway: the header counts all the same
+		r.TLS = &tls.ConnectionState{}
+	}
 	w := vpNewRW()
 	EnrichContext(next).ServeHTTP(w, r)
 	vpAssert(seen != nil, "next-handler-reached-with-an-identity")
